@@ -10,7 +10,7 @@
    the C library zero-pads "%Y" (RFC 1123 needs it; glibc does not — see Props/C20_findings.v).
    Only statements here; proofs in Proofs/Client.v. *)
 From Coq Require Import ZArith List Bool String.
-From ACN Require Import Base.Num Base.Calendar Model.Client Proofs.Client.
+From ACN Require Import Base.Num Base.Calendar Gen.ClientShape Model.Client Proofs.Client.
 Import ListNotations.
 Open Scope string_scope.
 
@@ -68,6 +68,17 @@ Proof.
    (conj (first_request tz base q responses) (conj eq_refl (query_args_spec q))))).
 Qed.
 Print Assumptions C20_query.
+
+(* the string literals the model is built from are re-read from data_client.py / utils.py on every run
+   (Gen/ClientShape.v); this fails to compile as soon as one of them changes *)
+Theorem C20_literals :
+  K_strftime_format = rfc1123_format /\ K_strptime_format = rfc1123_format /\
+  K_valid_sites = ["caltech"; "jpl"; "office001"] /\ K_site_error = "ValueError" /\
+  K_endpoint = "sessions/" /\ K_ts_suffix = "/ts/" /\ K_limit = "100" /\ K_limit_ts = "1" /\
+  K_arg_cond = "where=" /\ K_arg_project = "project=" /\ K_arg_sort = "sort=" /\
+  K_arg_max_results = "max_results=" /\ K_query_mark = "?" /\ K_arg_sep = "&".
+Proof. exact client_literals. Qed.
+Print Assumptions C20_literals.
 
 (* the same, written out for a fully specified query and for the time-window wrapper's query *)
 Theorem C20_query_text : forall base site c p s,
